@@ -131,7 +131,7 @@ func runC20(c *Ctx) {
 				"the window bounds byte offsets of the Latin-1-decoded text, in which every body byte >= 0x80 takes two bytes: a marker within the first 16 KiB of a body with such bytes in front of it is not found and the page gets no content script")
 		}
 		// R1
-		enc := encC.Call.Args[0]
+		enc := u.Specialize(encC.Call.Args[0], encC.Cond)
 		idx := u.Call(calleeName(finder), types.Typ[types.Int], body)
 		bad := ""
 		nSplice := 0
@@ -154,7 +154,7 @@ func runC20(c *Ctx) {
 			head, tag, tail := leaf.Args[0].Args[0], leaf.Args[0].Args[1], leaf.Args[1]
 			switch {
 			case head.Op != "slice" || tail.Op != "slice":
-				bad = "head/tail are not slices of the body"
+				bad = "head/tail are not slices of the body: " + clip(u.Show(leaf), 300)
 			case head.Args[0].key != body.key || tail.Args[0].key != body.key:
 				bad = "head and tail are not taken from the decoded body (the index was computed on one string and applied to another): head of " + clip(u.Show(head.Args[0]), 70) + ", tail of " + clip(u.Show(tail.Args[0]), 70)
 			case head.Args[1] != nil && !isIntConst(head.Args[1], 0) || tail.Args[2] != nil:
@@ -179,24 +179,99 @@ func runC20(c *Ctx) {
 		var okBody, okLen, okDel bool
 		var succ Ref = False
 		for _, r := range s.Rets {
-			if r.Vals[0].IsNil() {
-				succ = u.bdd.Or(succ, r.Cond)
+			for leaf, cond := range u.Leaves(r.Vals[0]) {
+				cc := u.bdd.And(r.Cond, cond)
+				// nil literally, or an error variable the path condition knows to be nil
+				if leaf.IsNil() || (cc != False && leaf.Op != "mkiface" && u.bdd.Implies(cc, u.ToBool(u.Eq(leaf, u.mk("nil", "", nil))))) {
+					succ = u.bdd.Or(succ, cc)
+				}
 			}
 		}
+		// The final bytes: the encoded text, or - where the finder said -1, so that the text is the
+		// decoded body unchanged - the decompressed bytes themselves (ISO 8859-1 maps the 256 byte
+		// values one-to-one to U+0000..U+00FF, so encoding the decoding of b gives b back).
+		noMarker := u.ToBool(u.Eq(idx, u.Int(-1)))
+		finalBytes := func(x *E, cond Ref) bool {
+			care := u.bdd.And(succ, cond)
+			if x.key == out.key || u.Specialize(x, care).key == u.Specialize(out, care).key {
+				return true
+			}
+			// the same encode call with its argument simplified under the path condition
+			if x.Op == "extract" && x.Aux == "0" && len(x.Args) == 1 && x.Args[0].Op == "call" && x.Args[0].Aux == encC.Call.Aux &&
+				u.Specialize(x.Args[0].Args[0], care).key == u.Specialize(encC.Call.Args[0], care).key {
+				return true
+			}
+			return x.key == raw.key && u.bdd.Implies(u.bdd.And(succ, cond), noMarker)
+		}
+		readerOf := func(v *E) *E {
+			var r *E
+			u.Mentions(v, func(x *E) bool {
+				if x.Op == "call" && x.Aux == "bytes.NewReader" && len(x.Args) == 1 && r == nil {
+					r = x.Args[0]
+				}
+				return false
+			})
+			return r
+		}
+		unset := u.mk("sym", "C20.unset", nil)
+		bodyV, lenV := unset, unset
+		var delC Ref = False
 		for _, ef := range s.Effects {
 			switch ef.Kind {
 			case "store":
-				if ef.Addr.Op == "faddr" && ef.Addr.Aux == "Body" && u.bdd.Implies(succ, ef.Cond) {
-					okBody = strings.Contains(ef.Val.key, "bytes.NewReader("+out.key) || u.Mentions(ef.Val, func(x *E) bool { return x.Op == "call" && x.Aux == "bytes.NewReader" && x.Args[0].key == out.key })
+				if ef.Addr.Op == "faddr" && ef.Addr.Aux == "Body" {
+					bodyV = u.ITE(ef.Cond, ef.Val, bodyV)
 				}
-				if ef.Addr.Op == "faddr" && ef.Addr.Aux == "ContentLength" && u.bdd.Implies(succ, ef.Cond) {
-					okLen = ef.Val.Op == "convert" && ef.Val.Args[0].key == u.Len(out).key
+				if ef.Addr.Op == "faddr" && ef.Addr.Aux == "ContentLength" {
+					lenV = u.ITE(ef.Cond, ef.Val, lenV)
 				}
 			case "call":
-				if strings.HasSuffix(ef.Call.Aux, "net/http.Header).Del") && isStr(ef.Call.Args[1], "Content-Encoding") && u.bdd.Implies(succ, ef.Cond) {
-					okDel = true
+				if strings.HasSuffix(ef.Call.Aux, "net/http.Header).Del") && isStr(ef.Call.Args[1], "Content-Encoding") {
+					delC = u.bdd.Or(delC, ef.Cond)
 				}
 			}
+		}
+		okDel = u.bdd.Implies(succ, delC)
+		// per success path the reader and the length are over the same final bytes
+		type fin struct {
+			x    *E
+			cond Ref
+		}
+		var bodies []fin
+		if bodyV != unset {
+			okBody = true
+			for leaf, cond := range u.Leaves(bodyV) {
+				if u.bdd.And(succ, cond) == False {
+					continue
+				}
+				x := readerOf(leaf)
+				if x == nil || !finalBytes(x, cond) {
+					okBody = false
+					continue
+				}
+				bodies = append(bodies, fin{x, cond})
+			}
+			okBody = okBody && len(bodies) > 0
+		}
+		if lenV != unset && okBody {
+			okLen = true
+			n := 0
+			for leaf, cond := range u.Leaves(lenV) {
+				if u.bdd.And(succ, cond) == False {
+					continue
+				}
+				n++
+				for _, b := range bodies {
+					if u.bdd.And(succ, u.bdd.And(cond, b.cond)) == False {
+						continue
+					}
+					care := u.bdd.And(succ, u.bdd.And(cond, b.cond))
+					if !(leaf.Op == "convert" && (leaf.Args[0].key == u.Len(b.x).key || u.Specialize(leaf.Args[0], care).key == u.Specialize(u.Len(b.x), care).key)) {
+						okLen = false
+					}
+				}
+			}
+			okLen = okLen && n > 0
 		}
 		c.Check(okBody, "C20.R3", "filterHTML: response body reads the final encoded bytes", fh.Pos(), "res.Body = NopCloser(bytes.NewReader(encoded))", "the response body is not a reader over the final encoded bytes")
 		c.Check(okLen, "C20.R3", "filterHTML: Content-Length = len(final encoded bytes)", fh.Pos(), "res.ContentLength = int64(len(encoded))", "the declared length is not the length of the final encoded bytes")
